@@ -44,6 +44,9 @@ def _case(draw, cfg):
         st.lists(
             st.one_of(
                 st.just(["remove"]),
+                st.just(["remove"]),
+                # the project is simulated again in the middle of the history, without or with other absence steps
+                st.sampled_from([["resim", []], ["resim", []], ["resim", [1, 2]], ["resim", [0, 3, 40]]]),
                 st.tuples(st.just("insert"), st.lists(st.integers(0, 60), min_size=1, max_size=4)).map(lambda t: [t[0], t[1]]),
                 st.tuples(st.just("insert"), st.lists(st.sampled_from([0, 0, 1, 2]), min_size=1, max_size=2)).map(lambda t: [t[0], t[1]]),
                 # a list that names a step twice ("any list of step indices")
@@ -137,9 +140,20 @@ def check(case):
     inserted_inside = False
     removed_after_insert = False
     roundtrips = 0
+    model_abs = list(spec["opts"].get("abs", []))
     for i, op in enumerate(case["ops"]):
         where = "after op %d %s" % (i, op)
-        absence_now = list(p.absence_time_list)
+        absence_now = list(model_abs)  # the harness's own record of the registered absence steps
+        if op[0] == "resim":
+            # the project is simulated again, with another (maybe empty) absence list: what was registered before is gone
+            S.simulate(p, dict(spec["opts"], abs=list(op[1])))
+            model_abs = list(op[1])
+            n = _lengths(p, res, where)
+            if n is None:
+                return res
+            inserted_inside = False
+            res.cls("re_simulated_in_history")
+            continue
         if op[0] == "remove":
             try:
                 p.remove_absence_time_list()
@@ -154,6 +168,7 @@ def check(case):
             if n2 > n:
                 res.fail("C18.remove_grew", "%s: logs grew from %d to %d" % (where, n, n2))
             n = n2
+            model_abs = []
         else:
             # the list is passed in the order it was generated (not ascending); every level is documented to insert
             # in ascending order, which is what the bookkeeping below assumes
@@ -188,6 +203,9 @@ def check(case):
                 if n2 < n or n2 - n > len(L):
                     res.fail("C18.insert_delta", "%s L=%s: logs went from %d to %d entries" % (where, L, n, n2))
             n = n2
+            for x in Lc:  # the registered list grows by the steps that were not registered before (as the library does)
+                if x not in model_abs:
+                    model_abs.append(x)
             if absence_free and not res.violations:
                 # round trip on an absence-free result
                 try:
@@ -203,6 +221,7 @@ def check(case):
                 n = _lengths(p, res, where + " (after round trip)")
                 if n is None:
                     return res
+                model_abs = []
                 removed_after_insert = removed_after_insert or inserted_inside
         if res.violations:
             break
